@@ -89,7 +89,9 @@ def run_c08(prop, tier):
     t0 = time.time()
     q = tier == "quick"
     sigs = (["KQk", "KRk", "Kkq", "Kkr", "KPk", "KNNk;files=4", "Kknn;files=4", "KQkn;files=4", "KRkp;files=4", "KRPkp;files=3", "KRRkp;files=4"] if q else
-            ["KQk", "KRk", "Kkq", "Kkr", "KPk", "KQkn;files=6", "KQkr;files=6", "KQkb;files=6", "KRkn;files=6", "KRkb;files=6", "KRkp;files=5", "KQkp;files=5", "KBNk;files=5", "KRRk;files=5", "KNNk", "Kknn", "KNNkn;files=5", "KNNkp;files=5", "KRPkp;files=4", "KQPkp;files=4", "KPkpr;files=4", "KBPkp;files=4", "KRRkp;files=4", "KQRkp;files=4", "KQkpp;files=4", "Kkrrp;files=4"])
+            ["KQk", "KRk", "Kkq", "Kkr", "KPk", "KNNk;files=6", "Kknn;files=6", "KQkn;files=5", "KQkr;files=5", "KQkb;files=5", "KRkn;files=5", "KRkb;files=5",
+             "KRkp;files=5", "KQkp;files=5", "KBNk;files=5", "KRRk;files=5", "KNNkn;files=4", "KNNkp;files=4",
+             "KRPkp;files=4", "KQPkp;files=3", "KPkpr;files=3", "KBPkp;files=3", "KRRkp;files=4"])
     lists = []
     for s in sigs:
         n = 16
